@@ -177,7 +177,8 @@ def fit_impl(ds, cfg, est=None, cache=None, tol=P.TOL):
     Returns (estimator, Y as the model sees it, Yhat, W) like pcovr_common.fit_impl."""
     from skmatter.decomposition import PCovR
     reg, Yfit, Wfit = make_regressor(ds, cfg, cache)
-    params = dict(mixing=cfg["a"], n_components=cfg["k"], space=cfg["space"],
+    nc = cfg.get("nc", cfg["k"])           # "nc": a fractional n_components or "mle" (round 5)
+    params = dict(mixing=cfg["a"], n_components=nc, space=cfg["space"],
                   svd_solver=cfg["solver"], tol=tol, regressor=reg, random_state=0)
     if est is None:
         est = PCovR(**params)
@@ -189,6 +190,9 @@ def fit_impl(ds, cfg, est=None, cache=None, tol=P.TOL):
         warnings.simplefilter("ignore")
         if reg == "precomputed" and Wfit is not None:
             est.fit(Xp, Yfit, W=Wfit)
+        elif reg != "precomputed" and cfg.get("Wjunk") is not None:
+            # a W handed to fit although the regressor is a real one: documented to be ignored
+            est.fit(Xp, Yfit, W=junk_W(cfg))
         else:
             est.fit(Xp, Yfit)
     n, m = X.shape
@@ -201,6 +205,41 @@ def fit_impl(ds, cfg, est=None, cache=None, tol=P.TOL):
         Yh = est.regressor_.predict(X).reshape(n, -1)
         Ymodel = np.asarray(Yfit, dtype=float).reshape(Yh.shape)
     return est, Ymodel, Yh, np.asarray(W, dtype=float).reshape(m, -1)
+
+
+def junk_W(cfg):
+    """The arbitrary W of a 'W passed although ignored' configuration, in its layout."""
+    W = np.asarray(cfg["Wjunk"], dtype=float)
+    lay = cfg.get("Wjunk_layout", "2d")
+    if lay == "flat":
+        return W.reshape(-1)
+    if lay == "F":
+        return np.asfortranarray(W)
+    if lay == "list":
+        return W.tolist()
+    return W
+
+
+def add_junk_W(rng, ds, cfg, prob=0.35):
+    """With probability prob make a non-precomputed configuration pass an arbitrary W to fit."""
+    if cfg["reg"] in ("pre_W", "pre_noW") or rng.random() >= prob:
+        return cfg
+    g = np_rng_of(rng)
+    cfg["Wjunk"] = (g.normal(size=(ds["m"], ds["p"])) * rng.choice([0.5, 3.0, 50.0])).tolist()
+    cfg["Wjunk_layout"] = rng.choice(["2d", "2d", "flat", "F", "list"])
+    return cfg
+
+
+def np_rng_of(rng):
+    return P.np_rng(rng)
+
+
+def resolve_fraction(S_full, f, n):
+    """(k, distance of f to the nearest cumulative ratio): the smallest k whose cumulative
+    explained-variance ratio of the eigenvalues S_full EXCEEDS f (searchsorted side='right' + 1)."""
+    ev = np.asarray(S_full, dtype=float) / (n - 1)
+    c = np.cumsum(ev / ev.sum())
+    return int(np.searchsorted(c, f, side="right")) + 1, float(np.min(np.abs(c - f)))
 
 
 def reference_regression(ds, cfg):
@@ -348,6 +387,7 @@ def gen_history(rng, quick=True):
         reg = regmode if regmode != "mixed" else rng.choice(["default", "ridge", "linreg", "pre_W", "pre_noW", "prefit"])
         cfg = P.gen_config(rng, ds, reg=reg)
         cfg["solver"] = "full"
+        add_junk_W(rng, ds, cfg, 0.25)
         if regmode == "ridge":
             cfg["alpha"] = steps[0][1]["alpha"] if steps else cfg["alpha"]   # the same object throughout
         steps.append((ds, cfg))
@@ -395,7 +435,7 @@ class CoqCases4(P.CoqCases):
         for i in range(n0, len(self.shards)):
             body, ids, tags = self.shards[i]
             self.shards[i] = (body.replace("From Verif Require Import MExp PCovR.",
-                                           "From Verif Require Import MExp PCovR PCovRC04."), ids, tags)
+                                           "From Verif Require Import MExp PCovR PCovRC04 PCovRFrac."), ids, tags)
 
 
 OWN_LABELS = ["loss_prog(own subspace) vs implementation", "lossx_prog(own subspace) vs implementation",
